@@ -151,7 +151,7 @@ def main(argv=None):
     for m, h in harnesses:
         cfgs = h.get(tier) or h.get('quick') or [{}]
         for cfg in cfgs:
-            jobs.append(dict(module=m, fn=h['fn'], config=cfg, name=h['name'], timeout=h.get('timeout', 30 if tier == 'quick' else 120),
+            jobs.append(dict(module=m, fn=h['fn'], config=cfg, name=h['name'], timeout=h.get('timeout', 60 if tier == 'quick' else 120),
                              max_paths=h.get('max_paths', 20000), crosscheck=h.get('crosscheck', 2 if tier == 'quick' else 8),
                              seed=seed, helper=h.get('helper', False)))
     ctx = mp.get_context('fork')
